@@ -1,2 +1,235 @@
-/- C05 driver (stub until the model exists) -/
-def main : IO Unit := pure ()
+/- C05 driver: trace acceptor.  Input per case: op lines, then the implementation's output lines
+prefixed "T ", then "end".  Walks ops and implementation lines in lockstep (every op has a fixed
+answer shape; deterministic answers — `init`, null tokens, task numbering, `bad-op` — are
+predicted from the model's `Cfg.ok` / life-cycle), collects the recorded history and validates
+it with `Tbox.C05.Spec.check`.  Prints `ok …` or `reject <reason>`. -/
+import TboxModel.Util
+import TboxModel.C05.Model
+import TboxModel.C05.Spec
+open Tbox.Util Tbox.C05 Tbox.C05.Spec
+
+structure TAcc where
+  h : Hist := {}
+  tl : List String := []
+  configured : Bool := false
+  ready : Bool := false         -- initialize() succeeded and cleanup() not yet called
+  cleaned : Bool := false
+  fin : Bool := false
+  err : Option String := none
+  nops : Nat := 0
+  tags : List String := []
+
+def fail (a : TAcc) (m : String) : TAcc := { a with err := some s!"op#{a.nops} {m}" }
+
+def nextLine (a : TAcc) : Option String × TAcc :=
+  match a.tl with
+  | l :: rest => (some l, { a with tl := rest })
+  | [] => (none, a)
+
+def expectExact (a : TAcc) (want : String) : TAcc :=
+  match nextLine a with
+  | (some l, a') => if l == want then a' else fail a s!"impl=[{l}] expected=[{want}]"
+  | (none, _) => fail a s!"implementation output ends here (crash / timeout); expected [{want}]"
+
+def parseAns (s : String) : Option Ans :=
+  if s == "w" then some .w else if s == "e" then some .e else if s == "n" then some .n else none
+
+/-- `P stat k a qb qa` -/
+def takeStat (a : TAcc) (l : String) (wantK : Option Nat) : TAcc :=
+  match words l with
+  | ["P", "stat", k, x, qb, qa] =>
+    match k.toNat?, parseAns x, qb.toNat?, qa.toNat? with
+    | some k, some x, some qb, some qa =>
+      if k ≥ a.h.tasks.size then fail a s!"status line for unknown task [{l}]"
+      else if wantK.isSome && wantK != some k then fail a s!"status line for the wrong task [{l}]"
+      else
+        let tag := "stat-" ++ (match x with | .w => "w" | .e => "e" | .n => "n")
+        { a with h := { a.h with queries := a.h.queries.push { k := k, a := x, qb := qb, qa := qa } }, tags := tag :: a.tags }
+    | _, _, _, _ => fail a s!"unparsable [{l}]"
+  | _ => fail a s!"impl=[{l}] expected a status line"
+
+partial def takeHammer (a : TAcc) : TAcc :=
+  match nextLine a with
+  | (none, _) => fail a "implementation output ends inside hammer (crash / timeout)"
+  | (some l, a') =>
+    if l == "P hammer" then a'
+    else
+      let a2 := takeStat a' l none
+      if a2.err.isSome then a2 else takeHammer a2
+
+partial def takeEvents (a : TAcc) : TAcc :=
+  match nextLine a with
+  | (none, _) => fail a "implementation output ends before `P fin` (crash / timeout)"
+  | (some l, a') =>
+    if l == "P fin" then { a' with fin := true }
+    else match words l with
+    | ["E", "body", k, thr, s, e] =>
+      match k.toNat?, thr.toNat?, s.toNat?, e.toNat? with
+      | some k, some thr, some s, some e =>
+        takeEvents { a' with h := { a'.h with bodies := a'.h.bodies.push { k := k, thr := thr, s := s, e := e } } }
+      | _, _, _, _ => fail a s!"unparsable [{l}]"
+    | ["E", "cb", k, thr, q] =>
+      match k.toNat?, thr.toNat?, q.toNat? with
+      | some k, some thr, some q =>
+        takeEvents { a' with h := { a'.h with cbs := a'.h.cbs.push { k := k, thr := thr, q := q } } }
+      | _, _, _ => fail a s!"unparsable [{l}]"
+    | ["E", "extra", k, _] =>
+      takeEvents { a' with h := { a'.h with extra := k.toNat?.getD 0 :: a'.h.extra } }
+    | _ => fail a s!"impl=[{l}] expected an event line or `P fin`"
+
+def boundedNat (s : String) (hi : Nat) : Option Nat := do
+  let n ← s.toNat?
+  if n ≤ hi then some n else none
+
+def stepOp (a : TAcc) (line : String) : TAcc :=
+  if a.err.isSome then a else
+  let a := { a with nops := a.nops + 1 }
+  let bad := expectExact a "bad-op"
+  match words line with
+  | ["cfg", kind, mn, mx, seed, pert] =>
+    match boundedNat mn 64, boundedNat mx 64, seed.toNat?, boundedNat pert 1000 with
+    | some mn, some mx, some _, some _ =>
+      if a.configured || !(kind == "pool" || kind == "wt") then bad else
+      let isPool := kind == "pool"
+      let ok := if isPool then (Cfg.ok { min := mn, max := mx }) else true
+      let a1 := expectExact a ("P init " ++ (if ok then "1" else "0"))
+      { a1 with configured := true, ready := ok,
+                h := { a1.h with isPool := isPool, max := if isPool then mx else 1 },
+                tags := (if isPool then (if mn == mx then "pool-fixed" else if mn == 0 then "pool-min0" else "pool-elastic") else "workthread") :: a1.tags }
+    | _, _, _, _ => bad
+  | ["exec", prio, cb, dur] =>
+    match intOfString? prio, boundedNat dur 20000 with
+    | some p, some _ =>
+      if !(cb == "0" || cb == "1") || p < -100 || p > 100 || !a.configured || a.h.tasks.size ≥ 4096 then bad else
+      match nextLine a with
+      | (none, _) => fail a "implementation output ends at exec (crash / timeout)"
+      | (some l, a') =>
+        match words l with
+        | ["P", "exec", k, qb, qa] =>
+          match qb.toNat?, qa.toNat? with
+          | some qb, some qa =>
+            if k == "null" then
+              if a.ready then fail a s!"execute returned a null token although the pool is ready" else a'
+            else if !a.ready then fail a s!"execute returned a token [{l}] although the pool is not ready"
+            else if k.toNat? != some a.h.tasks.size then fail a s!"unexpected task number [{l}]"
+            else
+              -- WorkThread has a single queue: every task at the same level
+              let lvl := if a.h.isPool then levelOf p else 2
+              { a' with h := { a'.h with tasks := a'.h.tasks.push { lvl := lvl, cb := cb == "1", qb := qb, qa := qa } } }
+          | _, _ => fail a s!"unparsable [{l}]"
+        | _ => fail a s!"impl=[{l}] expected an exec line"
+    | _, _ => bad
+  | ["stat", k] =>
+    match k.toNat? with
+    | some k =>
+      if !a.configured || k ≥ a.h.tasks.size then bad else
+      match nextLine a with
+      | (none, _) => fail a "implementation output ends at stat (crash / timeout)"
+      | (some l, a') => takeStat a' l (some k)
+    | none => bad
+  | ["cancel", k] =>
+    match k.toNat? with
+    | some k =>
+      if !a.configured || k ≥ a.h.tasks.size then bad else
+      match nextLine a with
+      | (none, _) => fail a "implementation output ends at cancel (crash / timeout)"
+      | (some l, a') =>
+        match words l with
+        | ["P", "cancel", k', r, qb, qa] =>
+          match k'.toNat?, r.toNat?, qb.toNat?, qa.toNat? with
+          | some k', some r, some qb, some qa =>
+            if k' != k then fail a s!"cancel line for the wrong task [{l}]" else
+            let q : Option Query :=
+              if r == 0 then some { k := k, a := .w, cancelOk := true, isCancel := true, qb := qb, qa := qa }
+              else if r == 1 then some { k := k, a := .n, isCancel := true, qb := qb, qa := qa }
+              else if r == 2 then some { k := k, a := .e, isCancel := true, qb := qb, qa := qa }
+              else if r == 3 && !a.h.isPool && a.cleaned then some { k := k, a := .n, isCancel := true, qb := qb, qa := qa }
+              else none
+            match q with
+            | some q => { a' with h := { a'.h with queries := a'.h.queries.push q }, tags := s!"cancel-{r}" :: a'.tags }
+            | none => fail a s!"cancel returned {r}"
+          | _, _, _, _ => fail a s!"unparsable [{l}]"
+        | _ => fail a s!"impl=[{l}] expected a cancel line"
+    | none => bad
+  | ["snap"] =>
+    if !a.configured || !a.h.isPool then bad else
+    match nextLine a with
+    | (none, _) => fail a "implementation output ends at snap (crash / timeout)"
+    | (some l, a') =>
+      match (words l).drop 2 |>.mapM String.toNat? with
+      | some [thr, idle, doing, u0, u1, u2, u3, u4, qb, qa] =>
+        if !(l.startsWith "P snap ") then fail a s!"impl=[{l}] expected a snapshot line" else
+        { a' with h := { a'.h with snaps := a'.h.snaps.push { thr := thr, idle := idle, doing := doing, undo := [u0, u1, u2, u3, u4], qb := qb, qa := qa } },
+                  tags := "snap" :: a'.tags }
+      | _ => fail a s!"impl=[{l}] expected a snapshot line"
+  | ["hammer", us] =>
+    match boundedNat us 200000 with
+    | some _ => if !a.configured then bad else takeHammer a
+    | none => bad
+  | ["sleep", us] =>
+    match boundedNat us 200000 with
+    | some _ => expectExact a "P sleep"
+    | none => bad
+  | ["drain"] =>
+    if !a.configured then bad else
+    match nextLine a with
+    | (some "P drain ok", a') => a'
+    | (some "P drain timeout", _) => fail a "drain: an accepted, not cancelled task was not executed within the watchdog time (lost wake-up?)"
+    | (some l, _) => fail a s!"impl=[{l}] expected a drain line"
+    | (none, _) => fail a "implementation output ends at drain (crash / timeout)"
+  | ["cleanup"] =>
+    if !a.configured then bad else
+    match nextLine a with
+    | (none, _) => fail a "implementation output ends at cleanup (crash / timeout)"
+    | (some l, a') =>
+      match words l with
+      | ["P", "cleanup", "ok", qb, qa] =>
+        match qb.toNat?, qa.toNat? with
+        | some qb, some qa =>
+          let first := a'.h.cleanup.isNone
+          { a' with ready := false, cleaned := true,
+                    h := if first then { a'.h with cleanup := some (qb, qa) } else a'.h,
+                    tags := "cleanup" :: a'.tags }
+        | _, _ => fail a s!"unparsable [{l}]"
+      | ["P", "cleanup", "timeout"] => fail a "cleanup() did not return within the watchdog time: a worker is blocked for ever (DEADLOCK)"
+      | _ => fail a s!"impl=[{l}] expected a cleanup line"
+  | ["fin"] => if a.fin then bad else takeEvents a
+  | _ => bad
+
+structure DS where
+  ops : Array String := #[]
+  tl : Array String := #[]
+
+def finish (d : DS) : List String :=
+  let a : TAcc := d.ops.foldl stepOp ({ tl := d.tl.toList } : TAcc)
+  let thrs := (a.h.bodies.toList.map (·.thr)).eraseDups.length
+  let tags0 := a.tags ++ (if thrs ≥ 2 then ["multi-worker"] else []) ++
+    (if a.h.bodies.size > 0 then ["ran"] else []) ++ (if a.h.cbs.size > 0 then ["cb"] else []) ++
+    (if a.h.cleanup.isSome && a.h.bodies.size < a.h.tasks.size then ["not-all-ran"] else [])
+  match a.err with
+  | some e => ["B " ++ " ".intercalate (tags0.eraseDups), "reject " ++ e]
+  | none =>
+    match a.tl with
+    | l :: _ => ["reject unexpected extra implementation output: [" ++ l ++ "]"]
+    | [] =>
+      if !a.fin then
+        ["B " ++ " ".intercalate (("no-fin" :: tags0).eraseDups), s!"ok ops={a.nops} (no history check: case has no `fin`)"]
+      else match check a.h with
+        | .error e => ["B " ++ " ".intercalate (tags0.eraseDups), "reject " ++ e]
+        | .ok n =>
+          let tags := tags0 ++ (if n > 0 then ["order-checked"] else [])
+          ["B " ++ " ".intercalate (tags.eraseDups),
+           s!"ok ops={a.nops} tasks={a.h.tasks.size} ran={a.h.bodies.size} cbs={a.h.cbs.size} queries={a.h.queries.size} orderpairs={n}"]
+
+def stepLine (d : DS) (line : String) : DS × List String :=
+  let t := line.trimAscii.toString
+  if t.isEmpty then (d, [])
+  else if t.startsWith "case " then ({}, [t])
+  else if t == "end" then ({}, finish d)
+  else if t.startsWith "T " then
+    let l := (t.drop 2).toString
+    -- `CRASH …` lines are appended by the framework, not by the implementation
+    if l.startsWith "CRASH" then (d, []) else ({ d with tl := d.tl.push l }, [])
+  else ({ d with ops := d.ops.push t }, [])
+
+def main : IO Unit := runDriver ({} : DS) stepLine
